@@ -347,9 +347,10 @@ func (r *e2Run) deliver(src int, req *http.Request, public bool) (*http.Response
 	if src >= 0 && r.nodes[src].slowA.Load() > 0 {
 		lat += time.Duration(r.nodes[src].slowA.Load()) * time.Millisecond
 	}
+	handed := false // once the request was handed to a handler it belongs to that goroutine
 	fail := func(why string) (*http.Response, error) {
 		r.count("wire_"+why, 1)
-		if req.Body != nil {
+		if !handed && req.Body != nil {
 			req.Body.Close()
 		}
 		select {
@@ -384,6 +385,7 @@ func (r *e2Run) deliver(src int, req *http.Request, public bool) (*http.Response
 	// the handler runs on the target; if the target process dies meanwhile, the connection breaks and the
 	// caller gets an error (the handler goroutine of the dead incarnation is abandoned)
 	done := make(chan struct{})
+	handed = true
 	go func() {
 		defer close(done)
 		if strings.HasPrefix(req.URL.Path, "/robustirc/v1/") {
